@@ -95,13 +95,15 @@ let run_tl cap ops =
 (* ---- bit stream ---- *)
 let run_bs bits ops =
   let data = ref (List.map (fun _ -> n_of_int 0xEE) (buffer_clear (n_of_int bits))) in
-  let wc = ref N0 and rc = ref N0 in
+  let wc = ref N0 and rc = ref N0 and shadow = ref [] in
   let dump () = pr " data=%s" (String.concat "" (List.map (fun b -> Printf.sprintf "%02x" (int_of_n b)) !data)) in
   List.iter (fun (name, args) ->
       pr "%s%s" name (args_str args);
       (match name, args with
        | "ws", _ -> data := buffer_clear (n_of_int bits); wc := N0; pr " cursor=%d" (int_of_n !wc)
        | "w", [w; v] -> let (d, c) = write !data !wc (n_of_int w) (n_of_int v) in data := d; wc := c; pr " cursor=%d" (int_of_n !wc)
+       | "snap", _ -> shadow := !data
+       | "eq", _ -> let e = (List.map int_of_n !data = List.map int_of_n !shadow) in pr " ->%s%s" (if e then "1" else "0") (if e then "0" else "1")
        | "rs", _ -> rc := N0; pr " cursor=%d" (int_of_n !rc)
        | "r", [w] -> let (v, c) = read !data !rc (n_of_int w) in rc := c; pr " ->%d cursor=%d" (int_of_n v) (int_of_n !rc)
        | _ -> ());
